@@ -6,9 +6,9 @@ from rfbgen import Session, gen_messages, server_init, limit_memory, unlimit_mem
 from vncdotool import client as vclient
 
 ID = "C16"
-PROOF_MODULES = ["VncProofs.C17", "VncProofs.C01"]
+PROOF_MODULES = ["VncProofs.C17", "VncProofs.C01", "VncProofs.Framing"]
 THEOREMS = ["Vnc.C16_progress", "Vnc.C16_no_spin", "Vnc.C16_steps_linear", "Vnc.C16_type_len", "Vnc.C16_v2s_total", "Vnc.C17_message", "Vnc.C17_messages",
-            "Vnc.C17_handshake", "Vnc.rfb_progress", "Vnc.C15_no_spin"]
+            "Vnc.C17_handshake", "Vnc.rfb_progress", "Vnc.C15_no_spin", "Vnc.proxy_type_len"]
 TRUSTED = [
     "Lean 4.33 kernel; standard axioms only",
     "forwarding itself is twisted.protocols.portforward (self.peer.transport.write(data)) and is exercised, not modelled; transparency then reduces to: the two logging parsers terminate on every input (C16_progress / C16_no_spin for RFBServer, rfb_progress / C15_no_spin for the logging RFBClient) and nothing they raise escapes dataReceived (the try/except of fix 36357b5, exercised with hostile and mis-framed streams)",
